@@ -20,7 +20,7 @@ def global_hook(eng, name):
 def construct_components(eng, st, pos, kw):
     from pyvc.state import alloc_obj
     names = ("variable", "upper_constraint", "lower_constraint")
-    st2, o = alloc_obj(st, "Components", {"attr:" + n: v for n, v in zip(names, pos)})
+    st2, o = alloc_obj(st, "Components", dict({"attr:" + n: v for n, v in zip(names, pos)}, tuple_fields=names))
     return [("ok", st2, o)]
 
 
@@ -38,20 +38,38 @@ def call_abstract(eng, st, f, pos, kw):
 HOOKS = chain_hooks({"global": global_hook, "call_abstract": call_abstract}, N.HOOKS)
 
 
+def problem_of(E):
+    """model.problem: of an opaque model, or of a materialised Model object that carries the attribute (call sites in add_moma)"""
+    m = E["model"]
+    if isinstance(m, VObj):
+        return E.s0.objs[m.oid]["attr:problem"].t
+    return N.term("attr.problem", m.t)
+
+
+def component_terms(prob, expr, name, ub, diff):
+    """(variable, upper row, lower row) as documented:  Variable(name, lb=0, ub);  expr - var <= diff;  expr + var >= diff"""
+    var = N.term("call(lb,ub)", N.term("attr.Variable", prob), name, N.lift(VInt(0)), ub)
+    cname = lambda pre: N.term("add", N.lift(VConc(pre)), name)  # noqa
+    upper = N.term("call(name,ub)", N.term("attr.Constraint", prob), N.term("sub", expr, var), cname("abs_pos_"), diff)
+    lower = N.term("call(lb,name)", N.term("attr.Constraint", prob), N.term("add", expr, var), diff, cname("abs_neg_"))
+    return var, upper, lower
+
+
 def _post(E):
     res = E.res
     if not (isinstance(res, VObj) and res.cls == "Components"):
         return z3.BoolVal(False)
     rec = E.s1.objs[res.oid]
-    m = E["model"].t
-    prob = N.term("attr.problem", m)
+    prob = problem_of(E)
+    if not isinstance(E["expression"], N.VNp):
+        raise Unsupported(f"add_absolute_expression applied to {E['expression']!r}: not an opaque expression")
     name, ub, diff, expr = N.lift(E["name"]), N.lift(E["ub"]), N.lift(E["difference"]), E["expression"].t
-    var = N.term("call(lb,ub)", N.term("attr.Variable", prob), name, N.lift(VInt(0)), ub)
-    cname = lambda pre: N.term("add", N.lift(VConc(pre)), name)  # noqa
-    upper = N.term("call(name,ub)", N.term("attr.Constraint", prob), N.term("sub", expr, var), cname("abs_pos_"), diff)
-    lower = N.term("call(lb,name)", N.term("attr.Constraint", prob), N.term("add", expr, var), diff, cname("abs_neg_"))
-    tr = E.s1.ghost.get("trace", ())
-    want_add = isinstance(E["add"], VBool) and z3.is_true(z3.simplify(E["add"].t))
+    var, upper, lower = component_terms(prob, expr, name, ub, diff)
+    tr0, tr = E.s0.ghost.get("trace", ()), E.s1.ghost.get("trace", ())
+    if tr[:len(tr0)] != tr0:
+        return z3.BoolVal(False)
+    tr = tr[len(tr0):]         # the calls made by this function (at a call site the caller's trace is the prefix)
+    want_add = _concrete_add(E["add"]) is True
     added = (len(tr) == 1 and tr[0][0] == "add_cons_vars_to_problem" and len(tr[0][1]) == 2 and tr[0][1][1] is res) if want_add else len(tr) == 0
     ok = all(isinstance(rec.get("attr:" + n), N.VNp) for n in ("variable", "upper_constraint", "lower_constraint"))
     if not ok:
@@ -60,13 +78,38 @@ def _post(E):
                   rec["attr:lower_constraint"].t == lower)
 
 
+def _concrete_add(v):
+    if isinstance(v, VBool):
+        t = z3.simplify(v.t)
+        return True if z3.is_true(t) else False if z3.is_false(t) else None
+    return None
+
+
 def _cases():
     out = []
     for tag, val in (("add_at_once", True), ("return_only", False)):
         c = Case(tag, ensures=_post)
         c.params_override = {"add": TConc(val)}
+        # at call sites: the case is chosen by the literal `add` argument; add=True only from a caller that has made no traced call yet
+        # (the frame below resets the trace) - anything else finds no case and stays undecided
+        c.applies = (lambda val: lambda a, st: _concrete_add(a.get("add")) is val and (not val or not st.ghost.get("trace")))(val)
         out.append(c)
     return out
+
+
+def _result(eng, st, E):
+    """call sites: a fresh Components tuple whose three fields the post-condition then determines"""
+    from pyvc.state import alloc_obj
+    names = ("variable", "upper_constraint", "lower_constraint")
+    return alloc_obj(st, "Components", dict({"attr:" + n: N.VNp(fresh("np:" + n, N.NP)) for n in names}, tuple_fields=names))
+
+
+def _modifies(E):
+    return [] if _concrete_add(E["add"]) is False else [("ghost", "trace", lambda st: ())]
+
+
+_ub_t = N.TNp()
+_ub_t.default = NONE          # ub=None
 
 
 def lift_str_add():
@@ -75,8 +118,8 @@ def lift_str_add():
 
 
 REG.add(Contract(MS, "add_absolute_expression", "C09",
-                 [("model", N.TNp()), ("expression", N.TNp()), ("name", N.TNp()), ("ub", N.TNp()), ("difference", N.TNp()), ("add", TConc(True))],
-                 _cases(), key="add_absolute_expression", modifies=lambda E: [("ghost", "trace", lambda st: ())]))
+                 [("model", N.TNp()), ("expression", N.TNp()), ("name", N.TNp()), ("ub", _ub_t), ("difference", N.TNp()), ("add", TConc(True))],
+                 _cases(), key="add_absolute_expression", modifies=_modifies, result=_result))
 
 
 def lemmas():
